@@ -453,3 +453,71 @@ func runC17_8(c *core.Ctx) {
 		c.Undecided("pkg/socket", "copies into sockaddr arrays", 0, "no copy into a SockaddrInet4/6.Addr found: idiom not recognised")
 	}
 }
+
+func init() {
+	register(&core.Rule{ID: "C17.9", Prop: "C17", MinSites: 8,
+		Desc: "no typed nil behind the Sockaddr interface: every value a conversion function returns as unix.Sockaddr is the untyped nil, the address of a value (&x, &T{…}) or another converter's result – never a pointer variable, which would make a failed conversion compare != nil and be dereferenced by sendto",
+		Run: runC17_9})
+}
+
+func runC17_9(c *core.Ctx) {
+	pk := c.P.Pkg("pkg/socket")
+	if pk == nil {
+		c.Undecided("pkg/socket", "package", 0, "package not loaded")
+		return
+	}
+	for _, d := range c.P.FuncsOf(pk) {
+		obj, _ := pk.TypesInfo.Defs[d.Name].(*types.Func)
+		if obj == nil || d.Body == nil {
+			continue
+		}
+		sig := obj.Type().(*types.Signature)
+		idx := -1
+		for i := 0; i < sig.Results().Len(); i++ {
+			if strings.HasSuffix(sig.Results().At(i).Type().String(), "unix.Sockaddr") {
+				idx = i
+			}
+		}
+		if idx < 0 {
+			continue
+		}
+		f := &fn{P: c.P, Obj: obj, Decl: d, Info: pk.TypesInfo, Pkg: pk, Name: core.FuncName(obj)}
+		k := 0
+		ast.Inspect(d.Body, func(n ast.Node) bool {
+			if _, ok := n.(*ast.FuncLit); ok {
+				return false
+			}
+			r, ok := n.(*ast.ReturnStmt)
+			if !ok || len(r.Results) <= idx {
+				return true
+			}
+			k++
+			e := ast.Unparen(r.Results[idx])
+			okk, why := false, "a pointer-typed value that may be nil"
+			switch x := e.(type) {
+			case *ast.Ident:
+				if flow.IsNil(f.Info, x) {
+					okk = true
+				} else if t := f.Info.TypeOf(x); t != nil {
+					if _, isIface := t.Underlying().(*types.Interface); isIface {
+						okk = true // already an interface value: nil stays nil
+					}
+				}
+			case *ast.UnaryExpr:
+				okk = x.Op == token.AND
+			case *ast.CallExpr:
+				if t := f.Info.TypeOf(x); t != nil {
+					if _, isIface := t.Underlying().(*types.Interface); isIface {
+						okk = true
+					} else if tup, ok := t.(*types.Tuple); ok && tup.Len() > idx {
+						_, isIface := tup.At(idx).Type().Underlying().(*types.Interface)
+						okk = isIface
+					}
+				}
+			}
+			c.Check(okk, f.Name, "Sockaddr result #"+itoa(k)+" is nil or non-nil for sure", r.Pos(), "untyped nil, &value or an interface-typed result",
+				"the conversion returns "+exprStr(e)+" ("+why+") as unix.Sockaddr: when the conversion fails the interface holds a typed nil pointer, `sa == nil` is false, and Sendto/Connect dereference it – a panic in the event loop instead of ErrInvalidNetworkAddress")
+			return true
+		})
+	}
+}
